@@ -29,13 +29,17 @@ type ResetProcessor struct {
 	target       interface{}
 	paths        []tree.Path
 	visitedNodes map[*yaml.Node][]string
+	// resolving holds the nodes currently being resolved, from the document root down to the current node
+	resolving map[*yaml.Node]int
 }
 
 // UnmarshalYAML implement yaml.Unmarshaler
 func (p *ResetProcessor) UnmarshalYAML(value *yaml.Node) error {
 	p.visitedNodes = make(map[*yaml.Node][]string)
+	p.resolving = make(map[*yaml.Node]int)
 	resolved, err := p.resolveReset(value, tree.NewPath())
 	p.visitedNodes = nil
+	p.resolving = nil
 	if err != nil {
 		return err
 	}
@@ -55,6 +59,10 @@ func (p *ResetProcessor) resolveReset(node *yaml.Node, path tree.Path) (*yaml.No
 		if err := p.checkForCycle(node.Alias, path); err != nil {
 			return nil, err
 		}
+		if p.resolving[node.Alias] > 1 {
+			// alias to a node which contains it, already expanded once: expansion would never end
+			return nil, fmt.Errorf("cycle detected: alias *%s at path %s references a node it is part of", node.Value, path)
+		}
 
 		return p.resolveReset(node.Alias, path)
 	}
@@ -66,6 +74,11 @@ func (p *ResetProcessor) resolveReset(node *yaml.Node, path tree.Path) (*yaml.No
 	if node.Tag == "!override" {
 		p.paths = append(p.paths, path)
 		return node, nil
+	}
+	switch node.Kind {
+	case yaml.SequenceNode, yaml.MappingNode:
+		p.resolving[node]++
+		defer func() { p.resolving[node]-- }()
 	}
 	switch node.Kind {
 	case yaml.SequenceNode:
